@@ -168,3 +168,12 @@ Theorem C15_model_choice_is_first_granted :
   end.
 Proof. exact TieCommit.model_choice_is_first_granted. Qed.
 Print Assumptions C15_model_choice_is_first_granted.
+
+(* tie B: "a user callable is consulted exactly once per item": in Machine.behaviour the in-edge policy is consulted after the
+   worker-slot request, i.e. in the block that acts on its answer (regenerated statement order, theories/Nodes/TieNodes.v; the
+   model draws at pc 2, C15_round_robin_pull_one_step_per_item_recorded) -- a policy evaluated before the wait for the slot
+   would be acted upon in a later state of the model *)
+From FV Require TieNodes.
+Theorem C15_policy_consulted_when_acted_upon : SrcFragments.Machine_slot_before_index_draw = true.
+Proof. exact TieNodes.machine_slot_before_index_draw_src. Qed.
+Print Assumptions C15_policy_consulted_when_acted_upon.
